@@ -22,7 +22,9 @@ func init() {
 			"(d) the trust-store list every loader wrapper receives (authenticity and tsa) is, followed upwards through parameters with closed call-site lists, captured variables, fields of unexported state structs and phis, the TrustStores field of one statement S; " +
 			"S is the result of a selection method of the policy document (through selection helpers and parameters); the function that takes S apart hands module code only fields of S, among them name, stores, identities and signatureVerification; " +
 			"(e) signature.VerifyAuthenticity receives exactly the loader's certificates (followed through parameters, phis and forwarding layers), an empty set and a verification error are failing results " +
-			"(decided on the value that ends up in the result's error field: literal or result constructor, single exit with an error local), a loader error becomes the Error of an authenticity-typed result; " +
+			"(decided on the value that ends up in the result's error field: literal or result constructor, single exit with an error local), a loader error becomes the Error of an authenticity-typed result " +
+			"(stored into a literal / an object created up front, given to a result constructor, or handed on next to the certificates to a function that fails whenever it is non-nil and cannot be bypassed when the load failed), " +
+			"and signature.VerifyAuthenticity is reached only behind the nil test of the loader's error, in the caller or, on the handed-on parameter, in the callee; the SignerInfo it is applied to is the recorded envelope content's (also when that content is handed on or held in a local); " +
 			"(f) store/*: the store implementation returns, for (type, name), exactly what it just read from the directory of that type and name (the exact-set and known-type obligations of C13, re-decided here: a cache keyed by name alone hands a ca store to a signingAuthority signature); " +
 			"(g) applicable/*: the statement whose stores are used is the one selected for the artifact (the selection obligations of C08, re-decided here: stores listed only by other statements never confer trust).",
 		NotCov:  "certificate identity (x509.Certificate.Equal inside notation-core-go's VerifyAuthenticity), the trust store's per-file validity rules (C13).",
@@ -279,12 +281,26 @@ func c03SignerInfoOfEnvelope(w *World, v ssa.Value, depth int) bool {
 	if d := desc(v); strings.HasSuffix(d, ".EnvelopeContent.SignerInfo") {
 		return true
 	}
+	// the SignerInfo field of the outcome's envelope content, the content itself having been handed down (parameter narrowed from
+	// the outcome to what is needed of it) or being held in a local (see c03EnvelopeContent)
+	switch x := v.(type) {
+	case *ssa.FieldAddr:
+		if fieldName(x.X.Type(), x.Field) == "SignerInfo" && c03EnvelopeContent(w, x.X, depth) {
+			return true
+		}
+	case *ssa.Field:
+		if fieldName(x.X.Type(), x.Field) == "SignerInfo" && c03EnvelopeContent(w, x.X, depth) {
+			return true
+		}
+	}
 	// a local copy of the envelope's SignerInfo (whatever else happens to the copy, it was taken from the envelope)
 	if al, ok := v.(*ssa.Alloc); ok && al.Referrers() != nil {
 		n := 0
 		for _, r := range *al.Referrers() {
 			if st, ok := r.(*ssa.Store); ok && st.Addr == ssa.Value(al) {
-				if !strings.HasSuffix(desc(st.Val), ".EnvelopeContent.SignerInfo") {
+				// the value copied is the envelope's SignerInfo: read from the envelope here, or received as a by-value parameter
+				// every call site of which passes it
+				if !strings.HasSuffix(desc(st.Val), ".EnvelopeContent.SignerInfo") && !c03SignerInfoOfEnvelope(w, st.Val, depth+1) {
 					return false
 				}
 				n++
